@@ -1177,6 +1177,19 @@ pub fn c19_embedded(ctx: &mut Ctx, s: &str) {
         }
         if let (Some(q), Some(mq)) = (r0.query(), sp.query) { c19_obj!(ctx, "Query", q, mq, b(s)); }
         if let (Some(fr), Some(mf)) = (r0.fragment(), sp.fragment) { c19_obj!(ctx, "Fragment", fr, mf, b(s)); }
+        // a component the reference has must be obtainable as a view at all
+        let mut missing: Vec<&'static str> = Vec::new();
+        if let Ok(x) = crate::ctx::guard(|| r0.query().is_some()) { if x != sp.query.is_some() { missing.push("Query"); } }
+        if let Ok(x) = crate::ctx::guard(|| r0.fragment().is_some()) { if x != sp.fragment.is_some() { missing.push("Fragment"); } }
+        if let Ok(x) = crate::ctx::guard(|| r0.authority().is_some()) { if x != sp.authority.is_some() { missing.push("Host"); } }
+        if let (Ok(Some(a)), Some(ma)) = (crate::ctx::guard(|| r0.authority()), sp.authority) {
+            if let Ok(x) = crate::ctx::guard(|| a.user_info().is_some()) { if x != model::split_authority(ma).user_info.is_some() { missing.push("UserInfo"); } }
+        }
+        if let Ok(x) = crate::ctx::guard(|| r0.path().segments().count()) { if x != msegs.len() { missing.push("Segment"); } }
+        for name in missing {
+            ctx.call("embedded.presence");
+            ctx.fail("C19.bytes", { let mut f = c19_feats(name, "embedded.presence", true); f.push(("via", "embedded".into())); f }, format!("{} of {}: the accessor and the RFC split disagree on whether the component is there, so its percent-decoded view cannot be obtained (or is obtained for something else)", name, show(b(s))));
+        }
     }
     c19_embedded_views(ctx, s);
 }
@@ -2602,6 +2615,24 @@ pub fn lockstep(a: &str, bb: &str, ops_text: &str) -> Vec<String> {
             o.push(format!("segment eq {} cmp {:?} hash {}", sx == sy, sx.cmp(sy), fnv(sx)));
         }
         o.push(format!("normalized_segments {:?}", x.path().normalized_segments().map(|s| lossy(s.as_bytes())).collect::<Vec<_>>()));
+        o.push(format!("normalized_segments from the back {:?}", x.path().normalized_segments().rev().map(|s| lossy(s.as_bytes())).collect::<Vec<_>>()));
+        o.push(format!("segments from the back {:?}", x.path().segments().rev().map(|s| lossy(s.as_bytes())).collect::<Vec<_>>()));
+        o.push(format!("path-level suffix {:?} {:?}", x.path().suffix(y.path()).map(|p| lossy(p.as_bytes())), y.path().suffix(x.path()).map(|p| lossy(p.as_bytes()))));
+        // every provided comparison between the owned/borrowed, full/reference types
+        {
+            let (xo, yo) = (x.to_owned(), y.to_owned());
+            o.push(format!("cmp matrix ref: {:?} {:?} {:?} {:?} {} {} {}", xo.partial_cmp(y), xo.partial_cmp(&y), x.partial_cmp(&yo), xo.cmp(&yo), xo == yo, xo == *y, *x == yo));
+            if let (Some(xi), Some(yi)) = (x.as_full(), y.as_full()) {
+                let (xio, yio) = (xi.to_owned(), yi.to_owned());
+                o.push(format!("cmp matrix full: {:?} {:?} {:?} {:?} {:?} {:?} {:?} {:?} {:?} {:?} {:?} {:?} {:?} {:?} {:?} {:?}",
+                    xi.partial_cmp(y), xi.partial_cmp(&y), xi.partial_cmp(&yio), xi.partial_cmp(&yi), xi.partial_cmp(&yo),
+                    x.partial_cmp(yi), x.partial_cmp(&yi), x.partial_cmp(&yio),
+                    xio.partial_cmp(y), xio.partial_cmp(&y), xio.partial_cmp(&yo), xio.partial_cmp(yi),
+                    xo.partial_cmp(yi), xo.partial_cmp(&yi), xo.partial_cmp(&yio), xio.cmp(&yio)));
+                o.push(format!("eq matrix full: {} {} {} {} {} {} {} {}", *xi == *y, *xi == yio, *xi == yo, *x == *yi, *x == yio, xio == *y, xio == yo, xo == *yi));
+                o.push(format!("hash full {} {} {}", fnv(xi), fnv(&xio), fnv(&xo)));
+            }
+        }
         o
     });
     match r {
